@@ -703,6 +703,9 @@ func (x *Exec) enterLoop(fr *Frame, lp *loop, st *State) {
 		fr.env[phi] = x.havocLike(st, fmt.Sprintf("%s.%s@L%d", shortFn(fr.fn), phiName(phi), lp.ordinal), old, phi.Type())
 	}
 	// 3. assume invariants
+	for _, t := range x.autoInvariants(fr, lp, nil) {
+		x.ctx.assume(st, t)
+	}
 	for _, v := range x.evalClauses(fr, st, x.loopClauses(fr, lp, "invariant"), nil, "invariant") {
 		x.ctx.assume(st, v.t)
 	}
@@ -779,7 +782,69 @@ func (x *Exec) evalClauses(fr *Frame, st *State, cls []*Clause, over map[ssa.Val
 	return out
 }
 
+// autoInvariants: monotone integer counters (phi = phi + c, c > 0, constant start k) satisfy phi >= k.
+func (x *Exec) autoInvariants(fr *Frame, lp *loop, over map[ssa.Value]*Val) []*Term {
+	var out []*Term
+	for _, ins := range lp.header.Instrs {
+		phi, ok := ins.(*ssa.Phi)
+		if !ok {
+			break
+		}
+		if _, _, isInt := intRange(phi.Type()); !isInt {
+			continue
+		}
+		var start *int64
+		mono := true
+		for i, e := range phi.Edges {
+			pred := lp.header.Preds[i]
+			if lp.body[pred] {
+				// back edge: must be phi + positive constant
+				bo, ok := e.(*ssa.BinOp)
+				if !ok || bo.Op != token.ADD || bo.X != ssa.Value(phi) {
+					mono = false
+					break
+				}
+				c, ok := bo.Y.(*ssa.Const)
+				if !ok || c.Value == nil || c.Int64() <= 0 {
+					mono = false
+					break
+				}
+			} else {
+				c, ok := e.(*ssa.Const)
+				if !ok || c.Value == nil {
+					mono = false
+					break
+				}
+				v := c.Int64()
+				if start != nil && *start != v {
+					mono = false
+					break
+				}
+				start = &v
+			}
+		}
+		if !mono || start == nil {
+			continue
+		}
+		var cur *Val
+		if over != nil {
+			cur = over[phi]
+		}
+		if cur == nil {
+			cur = fr.env[phi]
+		}
+		if cur == nil || cur.T == nil {
+			continue
+		}
+		out = append(out, Ge(cur.T, IntLit(*start)))
+	}
+	return out
+}
+
 func (x *Exec) checkInvariants(fr *Frame, lp *loop, st *State, over map[ssa.Value]*Val, kind string) {
+	for i, t := range x.autoInvariants(fr, lp, over) {
+		x.oblige(st, fmt.Sprintf("%s(loop%d.auto%d)", kind, lp.ordinal, i+1), t, lp.header.Instrs[0].Pos(), "counter never drops below its start value")
+	}
 	for i, r := range x.evalClauses(fr, st, x.loopClauses(fr, lp, "invariant"), over, "invariant") {
 		x.oblige(st, fmt.Sprintf("%s(loop%d.%d)", kind, lp.ordinal, i+1), r.t, lp.header.Instrs[0].Pos(), r.cl.Src)
 	}
